@@ -2,6 +2,7 @@
   C11 — USM privacy: the scoped PDU only ever travels as the plug-in's ciphertext.
   Model: `Snmp.Usm.generate` / `extractScoped`, for every privacy plug-in `(enc, dec)`.
 -/
+import Snmp.Gen.Facts
 import Snmp.Lemmas.UsmLemmas
 import Snmp.Props.C05
 import Snmp.Props.C09
@@ -74,5 +75,10 @@ theorem C11_roundtrip (cr : Crypto) (c : Creds) (pp : Bytes) (hc : c.priv = some
   apply payload_priv cr c pp hc m s plain sc rest hflag htag _ hparse hs
   rw [hdata, hsalt]
   exact hinv _ _ _ _ _
+
+
+/-- the engine the privacy key is localised to is the discovered (authoritative) one, never the
+    context engine named by the caller (shape of `V3MPM.encode`, generated) -/
+theorem C11_engine_id_shape : Snmp.Gen.securityEngineIsDiscovered = true := by decide
 
 end Snmp.Props.C11
